@@ -12,6 +12,7 @@ import (
 	"os"
 	"path/filepath"
 	"sort"
+	"strconv"
 	"strings"
 
 	"github.com/LindsayBradford/crem/internal/pkg/dataset/csv"
@@ -313,4 +314,125 @@ func catchPermutedDataset() (metaPath string, cleanup func()) {
 	write("PermGullies.csv", read("ValidGullies.csv"))
 	write("PermModel.csv", []string{"TableName, FilePath", "Subcatchments, PermSubcatchments.csv", "Gullies, PermGullies.csv", "Actions, PermActions.csv"})
 	return filepath.Join(dir, "PermModel.csv"), func() { os.RemoveAll(dir) }
+}
+
+// catchGeneratedDataset writes a random catchment data set (1..6 planning units with ids in random order, each
+// action type present or absent per unit, riparian vegetation on both sides of the 0.25 / 0.75 filter thresholds,
+// zero and non-zero hill-slope erosion, 0..3 gullies per unit, costs with and without cents) into a private temp
+// directory.  Rows are jittered copies of the shipped rows so that the physical derivations stay in range.
+// The data set is loaded through the real loader by the caller; a data set the loader or the model initialisation
+// rejects (error or panic) is skipped by the caller and counted.
+func catchGeneratedDataset(p *prng) (metaPath string, cleanup func(), desc J) {
+	dir, err := os.MkdirTemp("", "verif-gen-")
+	if err != nil {
+		panic(err)
+	}
+	cleanup = func() { os.RemoveAll(dir) }
+	jit := func(v float64) float64 { return v * (0.7 + 0.6*p.float()) }
+	f := func(v float64) string { return strconv.FormatFloat(v, 'g', -1, 64) }
+	subT := [][]float64{ // DownstreamId, ChannelLength, ChannelSlope, BankfullFlow, ChannelWidth, ChannelDepth, FloodplainWidth, Veg, Area, BufferArea, HillslopeArea
+		{15, 10322, 0.000024, 8.876609127, 14.0095989, 5.03800049, 904.4842277, 0.308863, 1643333, 151005, 17435.3},
+		{16, 20702, 0.000120348, 0.088007572, 3.034239867, 0.24099884, 379.9615247, 0.136031, 5919454, 178202, 980041},
+		{16, 14114, 0.000194278, 0.024524427, 1.000685636, 0.16199951, 748.9010539, 0.238881, 3518302, 69012.7, 21082.9},
+		{14, 17292, 0.0000872, 1.016639781, 5.375386357, 0.93999786, 2953.247506, 0.199359, 2302969, 70059.9, 0},
+		{28, 16858, 0.000058, 4.213832717, 21.9467316, 1.4054, 506.9327487, 0.114667, 1035280, 122033, 0},
+	}
+	vegs := []float64{0.05, 0.2499, 0.25, 0.3, 0.5, 0.7499, 0.75, 0.7501, 0.9, 0.114667, 0.308863}
+	nPU := 1 + p.intn(6)
+	ids := []int{}
+	used := map[int]bool{}
+	for len(ids) < nPU {
+		id := 3 + p.intn(150)
+		if !used[id] {
+			used[id] = true
+			ids = append(ids, id)
+		}
+	}
+	sub := []string{"Subcatchment,DownstreamId,ChannelLength,ChannelSlope,BankfullFlow,ChannelWidth,ChannelDepth,FloodplainWidth,ProportionOfRiparianVegetation,SubcatchmentArea,RiparianBufferArea,HillslopeArea"}
+	gul := []string{"Identifier,Subcatchment,Volume,ChannelLengh"}
+	act := []string{"Subcatchment,ActionType,OpportunityCost,ImplementationCost,ParticulateNitrogenOriginal,ParticulateNitrogenActioned,HillslopeErosionOriginal,HillslopeErosionActioned,FineSedimentOriginal,FineSedimentActioned,DissolvedNitrogenOriginal,DissolvedNitrogenActioned,DNRemovalEfficiency,PNRemovalEfficiency,SedimentRemovalEfficiency"}
+	cost := func(base float64) float64 {
+		c := float64(int64(jit(base)))
+		if p.chance(0.3) {
+			c += 0.37
+		}
+		if p.chance(0.15) {
+			c = 0
+		}
+		return c
+	}
+	gid := 1
+	nAct := 0
+	for _, id := range ids {
+		t := subT[p.intn(len(subT))]
+		veg := vegs[p.intn(len(vegs))]
+		if p.chance(0.2) {
+			veg = p.float()
+		}
+		hill := jit(t[10])
+		if p.chance(0.3) {
+			hill = 0
+		}
+		sub = append(sub, strings.Join([]string{strconv.Itoa(id), f(t[0]), f(jit(t[1])), f(jit(t[2])), f(jit(t[3])), f(jit(t[4])), f(jit(t[5])),
+			f(jit(t[6])), f(veg), f(jit(t[8])), f(jit(t[9])), f(hill)}, ","))
+		nGul := 0
+		if p.chance(0.5) {
+			nGul = 1 + p.intn(3)
+		}
+		for g := 0; g < nGul; g++ {
+			gul = append(gul, strings.Join([]string{strconv.Itoa(gid), strconv.Itoa(id), f(jit([]float64{3859.73, 278538.89}[p.intn(2)])), f(jit([]float64{178.417, 1346.508}[p.intn(2)]))}, ","))
+			gid++
+		}
+		row := func(kind string, v ...float64) {
+			cells := []string{strconv.Itoa(id), kind}
+			for _, x := range v {
+				cells = append(cells, f(x))
+			}
+			act = append(act, strings.Join(cells, ","))
+			nAct++
+		}
+		if nGul > 0 && p.chance(0.7) {
+			pn := jit(1.76)
+			dn := jit(0.0072)
+			row("Gully", cost(0), cost(167834), pn, pn*(0.1+0.5*p.float()), 0, 0, 0, 0, dn, dn*(0.2+0.6*p.float()), 0, 0, 0)
+		}
+		if p.chance(0.7) {
+			pn := jit(10.5)
+			er := jit(1267.84)
+			if hill == 0 || p.chance(0.3) {
+				pn, er = 0, 0
+			}
+			dn := jit(5.2)
+			row("Hillslope", cost(96419), cost(4700000), pn, pn*(0.2+0.6*p.float()), er, er*(0.05+0.3*p.float()), 0, 0, dn, dn*(0.8+0.19*p.float()), 0, 0, 0)
+		}
+		if p.chance(0.75) {
+			fs := 0.1 + 0.1*p.float()
+			dn := jit(2.0e-7)
+			row("Riparian", cost(5722), cost(724823), 0, 0, 0, 0, fs, fs*(0.8+0.6*p.float()), dn, dn*(0.4+0.4*p.float()), []float64{0, 0.5, 0.632175983, 1}[p.intn(4)], 0, 0)
+		}
+		if p.chance(0.4) {
+			eff := []float64{0, 0.5, 0.98, 0.99, 1}
+			row("Wetland", cost(6331), cost(2451354), 0, 0, 0, 0, 0, 0, 0, 0, eff[p.intn(5)], eff[p.intn(5)], eff[p.intn(5)])
+		}
+	}
+	write := func(n string, lines []string) {
+		if err := os.WriteFile(filepath.Join(dir, n), []byte(strings.Join(lines, "\n")+"\n"), 0o666); err != nil {
+			panic(err)
+		}
+	}
+	write("GenSubcatchments.csv", sub)
+	write("GenGullies.csv", gul)
+	write("GenActions.csv", act)
+	write("GenModel.csv", []string{"TableName, FilePath", "Subcatchments, GenSubcatchments.csv", "Gullies, GenGullies.csv", "Actions, GenActions.csv"})
+	return filepath.Join(dir, "GenModel.csv"), cleanup, J{"planning_units": nPU, "gullies": gid - 1, "action_rows": nAct}
+}
+
+// catchTryOpen loads a (generated) data set through the real loader; ok = false when the loader or the model
+// initialisation rejects it (error or panic) or it offers no action at all
+func catchTryOpen(path string) (c *catchInst, ok bool) {
+	panicked, _ := protect(func() { c = catchOpen(path, nil) })
+	if panicked || c == nil || c.nact == 0 {
+		return nil, false
+	}
+	return c, true
 }
